@@ -137,12 +137,15 @@ CHAINS = [('measure', 'direction', 'direction-type', 'words'), ('measure', 'note
 
 
 def render_scenarios(depth):
-    """all interleavings up to `depth` steps of serialise / mutate / attach / detach on nested chains; after every step every
-    node's to_string() must equal the independent rendering"""
+    """protocol-shaped interleavings on nested chains: the L-1 attach steps in bottom-up and in top-down order (thorough: every order),
+    and in EVERY gap (before, between, after) one of {nothing, serialise every node, mutate the leaf, serialise+mutate,
+    mutate+serialise}; after every step every node's to_string() must equal the independent rendering of its current state"""
     import musicxml.xmlelement.xmlelement as X
     table = elem.element_table()
     out = []
+    GAP = [(), ('ser',), ('mut',), ('ser', 'mut'), ('mut', 'ser')]
     for chain in CHAINS:
+        L = len(chain)
         n_ev = 0
         fail = None
 
@@ -154,57 +157,53 @@ def render_scenarios(depth):
                 c = getattr(X, ccn)
                 nodes.append(c(v, xsd_check=False) if v != '' else c(xsd_check=False))
             return nodes
-        L = len(chain)
-        ops = [('ser', i) for i in range(L)] + [('val',), ('attr',)] + [('att', i) for i in range(1, L)] + [('det', i) for i in range(1, L)]
-        for seq in itertools.product(ops, repeat=depth):
-            nodes = build()
-            attached = [False] * L
-            cnt = 0
-            ok = True
-            for op in seq:
-                try:
-                    if op[0] == 'ser':
-                        nodes[op[1]].to_string()
-                    elif op[0] == 'val':
-                        cnt += 1
-                        leaf = nodes[-1]
-                        if table[chain[-1]][1] in xsdspec.ALL_CT or True:
-                            try:
-                                leaf.value_ = ('A' if cnt % 2 else 'B') if chain[-1] == 'step' else f'text{cnt}'
-                            except Exception:
-                                pass
-                    elif op[0] == 'attr':
-                        cnt += 1
-                        nodes[1]._set_attributes({'id': f'i{cnt}'}) if chain[1] in ('score-part',) else nodes[0]._set_attributes({'id': f'i{cnt}'}) if chain[0] in ('measure',) else None
-                    elif op[0] == 'att':
-                        i = op[1]
-                        if not attached[i]:
-                            nodes[i - 1].add_child(nodes[i]); attached[i] = True
-                    elif op[0] == 'det':
-                        i = op[1]
-                        if attached[i]:
-                            nodes[i - 1].remove(nodes[i]); attached[i] = False
-                except Exception as ex:
-                    fail = fail or f'{chain}: {seq}: op {op} raises {type(ex).__name__}'
-                    ok = False
-                    break
-                n_ev += 1
-                for j, nd in enumerate(nodes):
+        orders = [tuple(range(L - 1, 0, -1)), tuple(range(1, L))]
+        if depth > 3:
+            orders = list(itertools.permutations(range(1, L)))
+        for order in orders:
+            for gaps in itertools.product(GAP, repeat=L):
+                seq = []
+                for i, g in enumerate(gaps):
+                    seq.extend(g)
+                    if i < len(order):
+                        seq.append(('att', order[i]))
+                nodes = build()
+                cnt = 0
+                for k, op in enumerate(seq):
                     try:
-                        got = nd.to_string()
+                        if op == 'ser':
+                            for nd in nodes:
+                                nd.to_string()
+                        elif op == 'mut':
+                            cnt += 1
+                            leaf = nodes[-1]
+                            leaf.value_ = ('A' if cnt % 2 else 'B') if chain[-1] == 'step' else f'text{cnt}'
+                            if 'id' in [q for q, _, _ in elem.declared_attrs(table[chain[-2]][1])]:
+                                nodes[-2]._set_attributes({'id': f'i{cnt}'})
+                        else:
+                            nodes[op[1] - 1].add_child(nodes[op[1]])
                     except Exception as ex:
-                        got = f'raises {type(ex).__name__}'
-                    want = spec_render(nd, level=nd.get_level())
-                    if got != want:
-                        fail = fail or f'{chain}: after {seq[:seq.index(op) + 1] if op in seq else seq}: to_string of <{chain[j]}> differs from the rendering of its current state'
-                        ok = False
+                        fail = fail or f'{chain}: {seq[:k + 1]}: raises {type(ex).__name__}: {ex}'
                         break
-                if not ok:
+                    n_ev += 1
+                    bad = False
+                    for j, nd in enumerate(nodes):
+                        try:
+                            got = nd.to_string()
+                        except Exception as ex:
+                            got = f'raises {type(ex).__name__}'
+                        if got != spec_render(nd, level=nd.get_level()):
+                            fail = fail or f'{chain}: after {seq[:k + 1]}: to_string of <{chain[j]}> differs from the rendering of its current state'
+                            bad = True
+                            break
+                    if bad:
+                        break
+                if fail:
                     break
             if fail:
                 break
         out.append(dict(oid=f'C16/render/{"-".join(chain)}', status='discharged' if not fail else 'violated', detail=fail, paths=n_ev, level='bounded',
-                        name=None, cname=None, kind='render', chain=list(chain), bound=depth))
+                        name=None, cname=None, kind='render', chain=list(chain), bound=f'{len(orders)} attach orders x 5^{L} gap fillings'))
     return out
 
 
